@@ -7,6 +7,7 @@ rendered diagnostics / exit status of `mypy.main.main`. The task only observes; 
 
 from __future__ import annotations
 
+import gc
 import os
 import re
 import shutil
@@ -16,6 +17,7 @@ from vlib import c18_gen, common, inproc
 from vlib.tasks import basic
 
 _events: list[dict[str, Any]] = []
+_GC_DEFAULT = gc.get_threshold()
 _case_root = ""
 _installed = False
 
@@ -174,6 +176,17 @@ def _run(style: str, args: list[str], cwd: str, env: dict[str, str], flags: list
     finally:
         if saved is not None:
             os.environ["MYPYPATH"] = saved
+        # mypy.build raises the gc thresholds to (200000, 30, 30) for the process: in a long-lived worker whole
+        # build graphs (~15 MB each) would pile up as uncollected cycles. Collect after every run.
+        gc.set_threshold(*_GC_DEFAULT)
+        try:
+            # class-level lru_cache on a method: keeps up to 128 SourceFinder + FileSystemCache objects of earlier
+            # runs alive (~8 MB each). A fresh process starts with it empty; so does every run here.
+            from mypy.find_sources import SourceFinder
+            SourceFinder._crawl_up_helper.cache_clear()
+        except Exception:
+            pass
+        gc.collect()
     text = (r.get("out") or "") + (r.get("err") or "")
     diags, dropped = _norm_diags(text, cwd)
     ev = _events[-1] if _events else None
